@@ -68,7 +68,7 @@ class FnCFG(object):
         return [s for s in b["s"] if s is not None]
 
     # -- reachability over element positions -----------------------------------
-    def reaches_exit_avoiding(self, start, avoid, normal_only=True, inclusive=False):
+    def reaches_exit_avoiding(self, start, avoid, normal_only=True, inclusive=False, skip_edges=()):
         """Is there a path from just after `start` (or from start itself when
         inclusive) to a normal function exit that touches no position in
         `avoid`?  Returns a witness list of block ids or None."""
@@ -83,8 +83,14 @@ class FnCFG(object):
                 return None
         if sb == self.exit:
             return [sb]
+        skip_edges = set(skip_edges)
+
+        def nexts(b):
+            if normal_only and b in self.throws:
+                return []
+            return [s for k, s in enumerate(self.blocks[b]["s"]) if s is not None and (b, k) not in skip_edges]
         seen = set()
-        stack = [(s, [sb, s]) for s in self.succs(sb, normal_only)]
+        stack = [(s, [sb, s]) for s in nexts(sb)]
         while stack:
             b, path = stack.pop()
             if b in seen:
@@ -94,7 +100,7 @@ class FnCFG(object):
                 continue
             if b == self.exit:
                 return path
-            for s in self.succs(b, normal_only):
+            for s in nexts(b):
                 if s not in seen:
                     stack.append((s, path + [s]))
         return None
